@@ -5,6 +5,9 @@ import json, subprocess
 HOOK_COMMITS = ["2d93e58"]  # filled in as hook commits are made in /repo
 
 CHECKS = {
+ "C19": dict(cat="exploration", technique="runtime lockstep differential monitor (memoized vs plain store), deterministic scheduler at build-tag guarded yield hooks enumerating writer/reader interleavings by re-execution, and porcupine-checked stress histories under the race detector",
+   text="Sampled lockstep histories (hundreds to thousands) with every kind of lookup option incl. Offset and 1-3 handles; hook-level schedules of one writer and one reader enumerated completely (35 per program), writer + two readers sampled in quick and complete in thorough (11550 per program); race-instrumented stress checked for linearizability.",
+   note="Hooks: memoization.VerifYield at five points outside graphMemoizer.mu (tag verif). Schedules are complete only at the granularity of these hook points.", ref="DESIGN.md §5 C19, Appendix D"),
  "C07": dict(cat="exploration", technique="runtime monitoring of concurrent executions: client-boundary invoke/response histories checked offline with porcupine against a bitmask set model, Go race detector on the same workloads, shared-options snapshots, channel-closed observation, all-blocked/hard watchdog",
    text="Sampled schedules: hundreds (quick) to thousands (thorough) of short histories (6-10 clients x 4-6 operations) on one graph and on the store's graph registry, under GOMAXPROCS 2/4/16 with yield hooks in AddTriples/RemoveTriples; concurrent BQL statements through the planner; a drain+Exist+writer probe; everything repeated under -race.",
    note="Schedules are sampled, not enumerated; porcupine timeouts (30 s) are inconclusive; RemoveTriples is modelled as k single removals sharing the call interval, AddTriples as atomic.", ref="DESIGN.md §5 C07, Appendix C"),
